@@ -50,7 +50,8 @@ def gen_atom(rng):
         lo, hi = rng.choice([(1, 2), (2, 3), (3, 1), (None, 2), (1, None)])
         return ("between", col(rng.choice("ab")), lit(lo), lit(hi), rng.random() < 0.3)
     if k == "like_lit":
-        p = rng.choice(["a%", "%b", "%a%", "a_", "_b%", "ab", "%", "a%b%", "%%", "aé%", "_%_", "a%%", "%a_"])
+        p = rng.choice(["a%", "%b", "%a%", "a_", "_b%", "ab", "%", "a%b%", "%%", "aé%", "_%_", "a%%", "%a_",
+                        "ab%b", "a%a", "b%b", "ab%ab"])      # prefix%suffix overlapping in short strings (seeded/C01)
         return ("like", col(rng.choice("su")), lit(p), rng.random() < 0.3)
     return ("like", col("u"), col("s"), rng.random() < 0.3)
 
